@@ -120,6 +120,7 @@ fn rule_of(prop: &str) -> &'static str {
         "C13" => "one run = one seeded layout history on tables with a primary key at any column position, tiny blocks, with key-range queries (=,<,<=,>,>=, two-sided, residual predicates, projections) at query points; each is compared with the same query under PRAGMA disable_optimizer, with the model, and at storage level scan(range) vs scan()+filter; non-trivial = queried table had >=2 row-sets or a DV; distinct = distinct (knobs, statement list)",
         "C04" => "one run = one seeded single-session history (3-8 statements + clock advances) executed once with every mutating syscall journalled, then crash images derived from the journal: quick samples crash indexes (all indexes near a manifest write, 25 % of the others), torn lengths {1, n/2, n-1} of the write in flight, both durability models (prefix / lost un-synced tails), and one-level crash during recovery; thorough enumerates every index, every byte of manifest writes. evaluations = crash images recovered and checked (+ post-recovery probe statements); non-trivial = image taken inside a statement; distinct = distinct (knobs, history)",
         "C18" => "one run = one seeded database (1-3 tables, several row-sets, DVs, possibly compacted; CRC32 checksums as default_for_cli) whose .col/.idx files are then corrupted one fault at a time: bit flip / byte overwrite / zero-filled sector / truncation at first, last, middle, the last 12 bytes (block trailer, index footer) and seeded positions x read order {corrupt then open; open, cache all blocks, corrupt; open, corrupt before any read} x optional compaction pass over the damaged data; every table is then read three times. evaluations = queries issued against corrupted databases; non-trivial = at least one corruption applied; distinct = distinct (knobs, history)",
+        "C15" => "one run = one seeded database (2-3 tables, several row-sets/blocks so that operators emit several items) and 4-8 statements under test (filtered scans, GROUP BY / global aggregates, ORDER BY [LIMIT], two-table joins, INSERT VALUES, INSERT..SELECT, DELETE WHERE); for each, a fault-free execution on a twin database records rows and per-operator item counts, then every (operator, item index, error|panic) below a DML root (sampled down to 24 per statement in quick) and seeded I/O faults (EIO, ENOSPC, EINTR, short transfer on the k-th syscall of the statement) are injected one per execution. evaluations = injected executions; non-trivial = at least one injected fault actually fired; distinct = distinct (knobs, history, statements)",
         _ => "see DESIGN.md",
     }
 }
